@@ -241,6 +241,18 @@ def get_universe(key):
     return _U[key]
 
 
+def in_scope(te, tr):
+    """The property quantifies over pairs of leaves of ONE mesh plus (leaf, child or quarter of a leaf): two elements whose
+    space-time interiors overlap are in scope only if they are identical or their sizes differ by at most one bisection per axis."""
+    (a, b), (c, d) = te.time_interval, tr.time_interval
+    (xa, xb), (ya, yb) = te.space_interval, tr.space_interval
+    if not (min(b, d) > max(a, c) and min(xb, yb) > max(xa, ya)):
+        return True
+    rt = max((b - a) / (d - c), (d - c) / (b - a))
+    rx = max((xb - xa) / (yb - ya), (yb - ya) / (xb - xa))
+    return rt <= 2.0 * (1 + 1e-12) and rx <= 2.0 * (1 + 1e-12)
+
+
 def layerB_chunk(item):
     key, lo, hi = item
     g, els, orc, SL0, SL1 = get_universe(key)
@@ -249,6 +261,9 @@ def layerB_chunk(item):
     warm = {}
     for idx in range(lo, hi):
         te, tr = els[idx // N], els[idx % N]
+        if not in_scope(te, tr):
+            out['out_of_scope_overlapping_pairs'] = out.get('out_of_scope_overlapping_pairs', 0) + 1
+            continue
         tc = universe.time_class(te, tr)
         sc = universe.space_class(g, te, tr)
         cl = sc + '|' + tc
